@@ -1265,6 +1265,10 @@ class World:
                 return VFunc("dict." + name, getpop)
             if name == "update":
                 def update(ex_, a, k):
+                    if not a and k:
+                        for kk, vv in k.items():
+                            w.map_setitem(ex_, d, VStr(kk), vv, node)
+                        return VNone()
                     if len(a) == 1 and isinstance(a[0], (VMap, VDict)) and not k:
                         w.ext.use(ex_, "dict.update(other): the receiver's entries are replaced/extended (content havocked); `other` is only read")
                         w.ext.mutated(ex_, d, "update")
@@ -1496,6 +1500,17 @@ class World:
     def to_seq(self, ex, sk, v, node):
         if v is None:
             return self.ext.new_list(ex, sk)
+        if isinstance(v, VMap):
+            self.ext.use(ex, "list(d) / set(d): the keys of d in order")
+            r = VSeq(sk, v.keys, v.n, origin="fresh")
+            ex.created.add(id(r))
+            ex.keep.append(r)
+            return r
+        if isinstance(v, VDict):
+            if not all(sym.is_concrete_bool(p) is True for p, _ in v.items.values()):
+                raise Unsupported("%s(dict with symbolic presence)" % sk)
+            keys = [VStr(k) if isinstance(k, str) else VInt(k) for k in v.items]
+            return self.ext.list_from_items(ex, keys, sk) if keys else self.ext.new_list(ex, sk)
         if isinstance(v, VTup):
             v = self.ext.as_seq(ex, v)
         if isinstance(v, VIter) or isinstance(v, VObj) or isinstance(v, VStr):
